@@ -13,7 +13,7 @@ RULE = ("every connection structure (all subsets of the in-grid wall slots) on e
         "every connected ordered pair, plus start=end cases; plus 200 (thorough 3000) sampled mazes up to 12x12 (random spanning trees with extra/removed edges, random densities, oblong) "
         "with shortest, non-shortest self-avoiding and deliberately broken solutions, plus arrays with bits on the last row/column, plus damaged images "
         "(extra/missing start, end and path pixels) read by all three classes. Every case: all four (show_endpoints, show_solution) pairs, pixels and ASCII, "
-        "read back by all three classes from both. non-trivial = at least one connection or marker; distinct = distinct (shape, edges, kind, endpoints, solution); later additions: thin big grids, reading a picture twice (the image must be left alone), ASCII text surrounded by blank lines / indented / right-padded")
+        "read back by all three classes from both. non-trivial = at least one connection or marker; distinct = distinct (shape, edges, kind, endpoints, solution); later additions: thin big grids, reading a picture twice (the image must be left alone), ASCII text surrounded by blank lines / indented / right-padded, serpentine mazes (solutions of 131+ cells)")
 ASSUMPTIONS = ["numpy slicing / boolean-mask assignment / argwhere order behave as documented (validated on every case by exact comparison)",
                "mazes are built through the public constructors (endpoints in the grid); solutions are non-empty",
                "from_pixels is modelled for odd x odd RGB images (every image as_pixels can produce); binary 2-D input goes through _from_pixel_grid_bw only"]
